@@ -2557,8 +2557,14 @@ impl<E: Effect> Executor<E> {
             .remove(&pid)
             .ok_or(Error::InvalidArgument("Process not found".to_string()))?;
 
-        // The message clone enters the select_state.receiving slot.
+        // The message clone enters the select_state.receiving slot. A lower-priority source's
+        // filter may still occupy it (a message for this source arrived while that filter ran);
+        // release what it held before overwriting, or that reference is never dropped.
         self.retain(&message);
+        let displaced = proc.select_state.as_mut().and_then(|state| state.receiving.take());
+        if let Some((_, displaced)) = &displaced {
+            self.release(displaced);
+        }
         if let Some(state) = &mut proc.select_state {
             state.receiving = Some((receive_idx, message.clone()));
             state.cursors[receive_idx] = msg_idx;
